@@ -625,6 +625,17 @@ def run(ctx):
         for k in (1, 2, 4, 7):
             lines.append("avhist N:c0:%s|F:c0:%d:g" % (b, k))
     ctx.compare("mesh-gap-first", lines)
+    # levels well beyond the lengths the other streams reach (10..12), on slowly growing classes
+    lines = []
+    len3 = perms(3)
+    pairs = [list(c) for c in itertools.combinations(len3, 2)]
+    rng.shuffle(pairs)
+    for b in pairs[:(8 if quick else 15)]:
+        top = rng.randrange(10, 12 if quick else 13)
+        lines.append("avhist N:a:%s|C:a:%d|E:a:%d|I:a:%s" % (fseqs(b), top, top - 1, fseq(rand_perm(rng, top))))
+    lines.append("avhist N:a:2,0,1;1,2,0|C:a:10|I:a:5,4,3,2,1,0,9,7,6,8")
+    lines.append("avhist N:a:0,2,1;3,2,1,0|C:a:10")
+    ctx.compare("long-levels", lines)
     # longer jumps back and forth on one class (compaction / spots still needed)
     lines = []
     for _ in range(300 if quick else 1500):
